@@ -41,6 +41,7 @@ import (
 //	'w' sleep Size milliseconds (real time: only for options that are about real time)
 //	'v' receive one message through RawRecv and keep the returned slice (checked later: it must not change)
 //	'm' send one message that the sender's own encoder rejects (the send fails locally, nothing is written)
+//	'V' receive through RawRecv until an error
 type Act struct {
 	Op   byte
 	Size int
@@ -86,6 +87,7 @@ type Script struct {
 	Meta    map[string]string
 	Clean   bool // generator's claim: neither side aborts; must succeed completely on a healthy connection
 	NoClose bool // do not append the implicit final Close on the client stream
+	BadReq  bool // unary only: the request is a message the client's own encoder rejects
 }
 
 // Event is one recorded application-level call.
@@ -397,6 +399,20 @@ func (x *Exec) runActs(l *RPCLog, side byte, st drpc.Stream, acts []Act, cancel 
 					break
 				}
 			}
+		case 'V':
+			rr, ok := st.(interface{ RawRecv() ([]byte, error) })
+			for i := 0; i < 100000; i++ {
+				ev := l.begin(side, "recv", 0, 0)
+				if !ok {
+					l.end(ev, fmt.Errorf("stream %T has no RawRecv", st))
+					break
+				}
+				data, err := rr.RawRecv()
+				l.endMsg(ev, err, append([]byte(nil), data...))
+				if err != nil {
+					break
+				}
+			}
 		case 'Q':
 			var wg sync.WaitGroup
 			for g := 1; g <= a.Size; g++ {
@@ -516,7 +532,12 @@ func (x *Exec) RunClient(s *Script) {
 			}
 		}
 		ev := l.begin('c', "invoke", s.ReqSize, 0)
-		err := x.Rig.Conn.Invoke(ctx, RPCName(s.Tag), payload.Enc{}, &in, &out)
+		var err error
+		if s.BadReq {
+			err = x.Rig.Conn.Invoke(ctx, RPCName(s.Tag), payload.Enc{}, unmarshalable{}, &out)
+		} else {
+			err = x.Rig.Conn.Invoke(ctx, RPCName(s.Tag), payload.Enc{}, &in, &out)
+		}
 		l.endMsg(ev, err, out)
 		return
 	}
@@ -661,7 +682,7 @@ func validate(s *Script, strict bool) bool {
 		case 'Z':
 			me.half = true
 			me.pc++
-		case 'r', 'R', 'Q', 'v':
+		case 'r', 'R', 'Q', 'v', 'V':
 			if peer.sent > me.got {
 				me.got++
 				if a.Op == 'r' || a.Op == 'v' {
